@@ -280,8 +280,11 @@ Definition c14_violations (cases : list sio_case) : list nat :=
 
 (** ---------- C15: the oracle on what Go returned ---------- *)
 Definition mach_view (mc : rmach) : option rcfg * mstate := (m_src _ mc, m_state _ mc).
+(** what a store entry says about its machine: the stored source stands for the specification it
+    resolves to - a source that is only a name ([RNamed]) resolves to nothing, the machine has no
+    specification (Spec/SioSpec.v [view_of_entry]) *)
 Definition entry_view (e : rentry) : option rcfg * mstate :=
-  (e_src _ e, match e_state _ e with Some s => s | None => default_state end).
+  (resolved _ rresolves (e_src _ e), match e_state _ e with Some s => s | None => default_state end).
 Definition view_agree (det : bool) (a b : option rcfg * mstate) : bool :=
   opt_eqb rcfg_eqb (fst a) (fst b) && ms_agree det (snd a) (snd b).
 
@@ -310,6 +313,8 @@ Fixpoint c15_steps_ok (det : bool) (steps : list sstep) : bool :=
          alist_eqb (view_agree true) (map (fun me => (fst me, entry_view (snd me))) (ss_store s))
                    (map (fun me => (fst me, mach_view (snd me))) (ss_live s))
        else true)
+      (* a machine's source is one that resolved: a source that resolves to nothing is not the machine's *)
+      && forallb (fun me => match m_src _ (snd me) with Some cfg => rresolves cfg | None => true end) (ss_live s)
       && (if ss_booted s then
             (* a crew rebuilt from the store is the live crew ... *)
             alist_eqb (mach_agree true) (ss_boot s) (ss_live s)
